@@ -264,7 +264,7 @@ from `validate_header` in `Props/C04.lean`). -/
 inductive Err
   | Denied | Orphan | InvalidBlockHeight | InvalidBlockVersion | InvalidBlockTime
   | InvalidMMRSize | TooHeavy | LowEdgebits | InvalidPow | DifficultyTooLow
-  | WrongTotalDifficulty | InvalidScaling | Panic
+  | WrongTotalDifficulty | InvalidScaling | InvalidRoot | Panic
   deriving DecidableEq, Repr
 
 def Err.name : Err → String
@@ -273,6 +273,7 @@ def Err.name : Err → String
   | .InvalidMMRSize => "InvalidMMRSize" | .TooHeavy => "TooHeavy" | .LowEdgebits => "LowEdgebits"
   | .InvalidPow => "InvalidPow" | .DifficultyTooLow => "DifficultyTooLow"
   | .WrongTotalDifficulty => "WrongTotalDifficulty" | .InvalidScaling => "InvalidScaling"
+  | .InvalidRoot => "InvalidRoot"
   | .Panic => "panic"
 
 /-- `TransactionBody::weight_by_iok(0, outputs, kernels)` (saturating u64) -/
@@ -300,6 +301,27 @@ def validatePowOnly (ct : ChainType) (powOk : Bool) (h : Hdr) : Except Err Unit 
   else if !powOk then .error .InvalidPow
   else .ok ()
 
+/-- `header.X_mmr_count().saturating_sub(prev.X_mmr_count())` -/
+def numNew (size prevSize : Nat) : Nat :=
+  satSub (Pmmr.nLeaves size) (Pmmr.nLeaves prevSize)
+
+/-- the `if !ctx.opts.contains(Options::SKIP_POW) { … }` block of `pipe::validate_header` -/
+def validateDifficulty (c : Ctx) (prev h : Hdr) : Except Err Unit :=
+  match validatePowOnly c.ct c.powOk h with
+  | .error e => .error e
+  | .ok () =>
+    if h.totalDiff ≤ prev.totalDiff then .error .DifficultyTooLow else
+    -- `target_difficulty = header.total_difficulty() - prev.total_difficulty()`
+    if toDifficulty c.ct h.height h.edgeBits h.secondaryScaling h.hash64 < h.totalDiff - prev.totalDiff then
+      .error .DifficultyTooLow
+    else
+      match nextDifficulty c.ct h.height c.window with
+      | none => .error .Panic
+      | some next =>
+        if h.totalDiff - prev.totalDiff ≠ next.diff then .error .WrongTotalDifficulty else
+        if h.version < 5 ∧ h.secondaryScaling ≠ next.scaling then .error .InvalidScaling
+        else .ok ()
+
 /-- `pipe::validate_header`, check by check in the code's order. -/
 def validateHeader (c : Ctx) (h : Hdr) : Except Err Unit :=
   if c.denied then .error .Denied else
@@ -309,25 +331,20 @@ def validateHeader (c : Ctx) (h : Hdr) : Except Err Unit :=
     if h.height ≠ addW prev.height 1 then .error .InvalidBlockHeight else
     if !validHeaderVersion c.ct h.height h.version then .error .InvalidBlockVersion else
     if h.ts ≤ prev.ts then .error .InvalidBlockTime else
-    let numOutputs := satSub (Pmmr.nLeaves h.outputMmrSize) (Pmmr.nLeaves prev.outputMmrSize)
-    let numKernels := satSub (Pmmr.nLeaves h.kernelMmrSize) (Pmmr.nLeaves prev.kernelMmrSize)
-    if numOutputs = 0 ∨ numKernels = 0 then .error .InvalidMMRSize else
-    if weightByIok 0 numOutputs numKernels > maxBlockWeight c.ct then .error .TooHeavy else
-    if c.skipPow then .ok () else
-    match validatePowOnly c.ct c.powOk h with
-    | .error e => .error e
-    | .ok () =>
-      if h.totalDiff ≤ prev.totalDiff then .error .DifficultyTooLow else
-      let target := h.totalDiff - prev.totalDiff
-      if toDifficulty c.ct h.height h.edgeBits h.secondaryScaling h.hash64 < target then
-        .error .DifficultyTooLow
-      else
-        match nextDifficulty c.ct h.height c.window with
-        | none => .error .Panic
-        | some next =>
-          if target ≠ next.diff then .error .WrongTotalDifficulty else
-          if h.version < 5 ∧ h.secondaryScaling ≠ next.scaling then .error .InvalidScaling
-          else .ok ()
+    if numNew h.outputMmrSize prev.outputMmrSize = 0 ∨ numNew h.kernelMmrSize prev.kernelMmrSize = 0 then
+      .error .InvalidMMRSize else
+    if weightByIok 0 (numNew h.outputMmrSize prev.outputMmrSize) (numNew h.kernelMmrSize prev.kernelMmrSize)
+        > maxBlockWeight c.ct then .error .TooHeavy else
+    if c.skipPow then .ok () else validateDifficulty c prev h
+
+/-- `pipe::process_block_header` after its "already known" short-cuts: `validate_header`, then
+`ext.validate_root(header)` inside the header extension (`rootOk`: the header's `prev_root` is
+the root of the header MMR rewound to its parent — hashes are not modelled here, the value is
+an input; the MMR itself is the subject of C07). -/
+def processBlockHeader (c : Ctx) (rootOk : Bool) (h : Hdr) : Except Err Unit :=
+  match validateHeader c h with
+  | .error e => .error e
+  | .ok () => if rootOk then .ok () else .error .InvalidRoot
 
 /-- outcome classes of `UntrustedBlockHeader::read` after the plain decode succeeded -/
 inductive ReadErr
